@@ -300,6 +300,7 @@ struct Universe {
     _tmp: tempfile::TempDir,
     dir: PathBuf,
     repo: Repository, // the serving peer's repository
+    other: Repository, // another repository of the serving peer (source of `rX`)
     rid: RepoId,
     keys: Vec<Device<MockSigner>>, // namespace k = keys[k-1]; sorted by public key
     local_extra: Device<MockSigner>,
@@ -345,7 +346,7 @@ impl Universe {
         // Another repository's identity root (for sigrefs that name a different repository). Its
         // objects live in that other repository only.
         let doc2 = RawDoc::new(project("other"), dids, threshold, Visibility::Public).verified().expect("doc2");
-        let (_repo2, root2) = Repository::init(&doc2, &storage, first).expect("init2");
+        let (other, root2) = Repository::init(&doc2, &storage, first).expect("init2");
         let raw = repo.raw();
         // The identity COB references created by `init` are replaced by the plain layout below.
         let created: Vec<String> = raw.references().unwrap().filter_map(|r| r.ok().and_then(|r| r.name().map(|s| s.to_string()))).collect();
@@ -380,7 +381,7 @@ impl Universe {
             }
         }
         // `r` and `i1` are the same commit; the projection calls it by the name the slot expects.
-        Universe { _tmp: tmp, dir, repo, rid, keys, local_extra, server, rekey, objs, sigs: HashMap::new(), names, counter: 0 }
+        Universe { _tmp: tmp, dir, repo, other, rid, keys, local_extra, server, rekey, objs, sigs: HashMap::new(), names, counter: 0 }
     }
 
     /// The sigrefs commit `(ver, fl)` of namespace `ns`, created on first use.
@@ -633,6 +634,10 @@ fn run_scenario(u: &mut Universe, sc: &Scenario) -> Outcome {
         // canonical identity head, as a node sets it after a successful clone
         copy_object(src, r.raw(), u.objs["r"]);
         r.raw().reference("refs/rad/id", u.objs["r"], true, "verif").unwrap();
+        // The fetcher also happens to have the objects of the *other* repository (as a node that
+        // seeds both has, cf. test_rid_verification): sigrefs naming it then fail the identity
+        // comparison itself rather than the object lookup. (A clone starts empty: lookup fails.)
+        copy_object(u.other.raw(), r.raw(), u.objs["rX"]);
         for (i, l) in sc.loc.iter().enumerate() {
             if l.is_none() {
                 continue;
@@ -898,7 +903,10 @@ fn main() {
                             let events: Vec<Value> = o.applied.iter().filter(|e| e["k"] != "rejected").cloned().collect();
                             let loc: Vec<Value> = o.after.iter().map(|p| json!({"sig": sig_record(&p.sig), "refs": p.refs})).collect();
                             c["out"] = json!({"result": o.result, "detail": o.detail, "loc": loc, "events": events,
-                                              "oracle": o.oracle, "changed": o.before != o.after});
+                                              "oracle": o.oracle, "changed": o.before != o.after,
+                                              "before": o.before.iter().map(|p| p.json()).collect::<Vec<_>>(),
+                                              "after": o.after.iter().map(|p| p.json()).collect::<Vec<_>>(),
+                                              "validAfter": o.valid_after});
                             recs.push(c);
                         }
                         recs
